@@ -37,7 +37,7 @@ COMPONENTS_STUB = [
 ]
 
 
-class CaseTimeout(Exception):
+class CaseTimeout(BaseException):      # BaseException: the library's blanket 'except Exception' must not swallow it
     pass
 
 
@@ -65,6 +65,11 @@ def exec_case(check, case, timeout):
     except Exception as e:   # harness error, never a violation
         res = {"outcome": "harness-error", "reason": "%s: %s" % (type(e).__name__, e),
                "trace": traceback.format_exc()[-3000:]}
+    except BaseException as e:   # noqa
+        if type(e).__name__ in ("InnerTimeout", "HarnessCap", "LineCap"):
+            res = {"outcome": "skip", "reason": "cap:" + type(e).__name__}
+        else:
+            raise
     finally:
         signal.setitimer(signal.ITIMER_REAL, 0)
         signal.signal(signal.SIGALRM, old)
@@ -94,7 +99,11 @@ def _worker(args):
             continue
         case["run_index"] = i
         case["run_seed"] = rs
-        res = exec_case(check, case, timeout)
+        faulthandler.dump_traceback_later(timeout * 2 + 30, exit=False)     # a hang inside C code shows its Python stack
+        try:
+            res = exec_case(check, case, timeout)
+        finally:
+            faulthandler.cancel_dump_traceback_later()
         if res["outcome"] == "violation" and case.get("faults"):
             # does the violation need the injected faults?  If it persists fault-free it is reported as such.
             c2 = dict(case)
